@@ -1,5 +1,9 @@
 """C14 — electrostatic potential = nuclear minus electronic Coulomb potential.
 
+pregen(): harness/trace_esp.py executes the CURRENT gbasis/evals/electrostatic_potential.py on formal symbols (density
+matrix, charges, point_charge_integral stub) and regenerates coq/Gen/EspTrace.v; Proofs/EspTraceP.v proves by
+computation that every traced combination is the model's formula (Props/C14_trace.v).
+
 Correspondence: gbasis.evals.electrostatic_potential.electrostatic_potential of the working tree vs the exact Coq
 model Model/Esp.v (runner command 250, which evaluates [esp_with] on the shared untransformed point-charge array of
 the C03 model; Boys/exp/sqrt values by mpmath).  Everything is evaluated by the extracted runner; a few cheap
@@ -23,11 +27,15 @@ What is compared, per case:
 """
 import itertools
 import math
+import os
 import random
+import subprocess
+import sys
 from fractions import Fraction
 
 import numpy as np
 
+import lib
 import twoindex
 from lib import XShell, call_impl, gen_basis, run_cases, short_float, shrink_shell_json, sx
 
@@ -607,6 +615,27 @@ def shrink_case(case):
 
 
 # ----------------------------------------------------------------------------------------------
+def pregen():
+    """regenerate coq/Gen/EspTrace.v from the CURRENT source (harness/trace_esp.py, fail-closed); returns None or
+    the reason the source could not be interpreted"""
+    env = dict(os.environ)
+    env["GBASIS_REPO"] = lib.REPO
+    env["PYTHONPATH"] = lib.REPO
+    script = os.path.join(lib.VERIF, "harness", "trace_esp.py")
+    p = subprocess.run([sys.executable, "-W", "ignore", script], env=env, capture_output=True, text=True, timeout=600)
+    out = (p.stdout or "").strip().splitlines()
+    if p.returncode == 0:
+        return None
+    if p.returncode == 3 and out:
+        return out[-1]
+    # the tracer itself crashed: still fail closed
+    gen = os.path.join(lib.VERIF, "coq", "Gen", "EspTrace.v")
+    with open(gen, "w") as f:
+        f.write("(* GENERATED: harness/trace_esp.py crashed *)\nFrom Coq Require Import List ZArith.\n"
+                "Definition et_translator_failed : True := I.\n")
+    return "tracer crashed: " + ((p.stderr or p.stdout or "")[-600:])
+
+
 def run(rep, tier, seed, model, replay):
     if replay is not None:
         if "case" not in replay or "kind" not in replay["case"]:
